@@ -424,14 +424,14 @@ func c08OpTable(c *core.Ctx) {
 		case "S": // tracked leaf that took part in a back-propagation
 			t := rt.Make(x, true)
 			if err := tensor.BackPropagate(t.Scale(1)); err != nil {
-				panic("HARNESS: " + err.Error())
+				panic("BackPropagate from Scale(1) of a fresh tracked leaf failed: " + err.Error())
 			}
 			return t
 		}
 		// "D": untracked result computed from a spent tensor (same values)
 		t := rt.Make(x, true)
 		if err := tensor.BackPropagate(t.Scale(1)); err != nil {
-			panic("HARNESS: " + err.Error())
+			panic("BackPropagate from Scale(1) of a fresh tracked leaf failed: " + err.Error())
 		}
 		return t.Scale(1)
 	}
